@@ -1040,7 +1040,7 @@ def judge_pstruct(ctx, case, out):
     elif c["kind"] == "vtr" and set(dp) <= {"dtypes", "points"} and "points" in dp and flat_coordinate_lost(c, truth, out["parallel"]):
         what = WHAT["F-C06e-pvtr-flat"]
     elif (c["kind"] == "vtr" and c["axes"] != list(range(len(c["axes"]))) and set(dp) <= {"dtypes", "points", "error"}
-          and ("points" in dp or "broadcast" in dp.get("error", ""))):
+          and ("points" in dp or "broadcast" in dp.get("error", "") or dp.get("error", "").startswith("IndexError"))):
         what = WHAT["F-C06c-pvtr"]
     elif "error" in dp:
         what = f".p{c['kind']}: reading the parallel file raised {dp['error'][:80]}"
@@ -1124,8 +1124,8 @@ def stream_pstruct(ctx, n_cases, maxext):
                               "the implementation read the file", case, found_input=False)
             continue
         if v == "None":
-            if err is None or "broadcast" not in err:
-                ctx.violation("E2", ".pvtr ordinates: model predicts a broadcasting error, implementation does not raise it", case, found_input=False, impl=err)
+            if err is None or not ("broadcast" in err or err.startswith("IndexError")):
+                ctx.violation("E2", ".pvtr ordinates: model predicts a broadcasting / index error, implementation does not raise it", case, found_input=False, impl=err)
         else:
             o = [[Fraction(n, d) * 4 for n, d in axis] for axis in v[1]]
             mp = [[x, y, z] for z in o[2] for y in o[1] for x in o[0]]
